@@ -459,6 +459,10 @@ pub fn c15(tier: &str, seed: u64) -> Check {
 
 // ------------------------------------------------------------------ C16
 
+pub fn conv_all_pub(abs: &Abs, ctx: &mut Ctx) {
+    conv_all(abs, ctx);
+}
+
 fn conv_all(abs: &Abs, ctx: &mut Ctx) {
     let det = || json!({"digraph": abs.arcs_json()});
     let r = guarded(|| {
@@ -736,6 +740,7 @@ pub fn c16(tier: &str, seed: u64) -> Check {
     static SQ: [usize; 14] = [5, 6, 7, 8, 9, 10, 11, 12, 13, 16, 17, 23, 24, 33];
     static ST: [usize; 26] = [5, 6, 7, 8, 9, 10, 11, 12, 13, 14, 15, 16, 17, 18, 19, 20, 23, 24, 25, 31, 32, 33, 40, 48, 64, 65];
     spaces.push(c16_single_arc_space(if thorough { &ST } else { &SQ }));
+    spaces.push(crate::props::large::c16_big(thorough));
     let report = super::report(
         "C16",
         tier,
